@@ -354,13 +354,9 @@ def gen_schedule(ch):
     sched = {"workers": workers, "policy": pol, "trace_lines": True}
     if ch.coin(0.15):
         sched["trace_sortedcontainers"] = True
-    if ch.coin(0.08) and pol.get("policy") != "seq":
-        # bytecode-level pre-emption inside package frames (finer than CPython 3.12's own switch points;
-        # schedules a free-threaded or future interpreter could produce)
-        sched["trace_opcodes"] = True
-        for k in ("p_line", "q_line"):
-            if k in pol:
-                pol[k] = pol[k] / 6.0
+    # (bytecode-level pre-emption - sched["trace_opcodes"] - is implemented but never generated: CPython 3.12's
+    # adaptive interpreter specialises bytecode as it warms up, so the number of 'opcode' trace events of the same
+    # code differs between a fresh process and a warm one, and a replay in a fresh process would not be exact.)
     return sched
 
 
